@@ -163,7 +163,10 @@ def gen_history(run_seed: int, tier: str, plugin: Optional[str] = None) -> Dict[
     # through a relative path from another working directory is not possible (cwd must be the tree), so
     # only the location varies
     out_depth = r.choice([0, 0, 1, 3, 5])
-    return {"run_seed": run_seed, "plugin": plugin, "model": M, "ops": ops, "finals": finals, "test_dir": use_test_dir, "out_depth": out_depth}
+    out_odd = out_depth > 0 and r.random() < 0.5
+    crlf_main = use_test_dir and r.random() < 0.25
+    return {"run_seed": run_seed, "plugin": plugin, "model": M, "ops": ops, "finals": finals, "test_dir": use_test_dir, "out_depth": out_depth,
+            "out_odd": out_odd, "crlf_main": crlf_main}
 
 
 # --------------------------------------------------------------------------------------------
@@ -184,11 +187,11 @@ def _place(kind: str, seed: int, plugin: str, out: pathlib.Path, probes: Dict[st
             (out / "lsprotocol" / "src" / "lib.rs").write_bytes(b"pub struct Gone;\n" + junk)
         elif plugin == "dotnet":
             (out / "lsprotocol").mkdir(parents=True, exist_ok=True)
-            for nm in r.sample(["OldSimStale.cs", "Position.cs", "ZzzRemoved.cs", "aaa.cs", "Validators.cs"], r.randint(1, 3)):
+            for nm in r.sample(["OldSimStale.cs", "Position.cs", "ZzzRemoved.cs", "aaa.cs", "Validators.cs", ".hidden.cs", "UPPER.CS".lower()], r.randint(1, 3)):
                 (out / "lsprotocol" / nm).write_bytes(junk)
         else:
             out.mkdir(parents=True, exist_ok=True)
-            for nm in r.sample(["zzz-True-deadbeef.json", "SimStale-False-0000.json", "Position-True-%064x.json" % r.getrandbits(256), "a.json"], r.randint(1, 3)):
+            for nm in r.sample(["zzz-True-deadbeef.json", "SimStale-False-0000.json", "Position-True-%064x.json" % r.getrandbits(256), "a.json", ".hidden.json"], r.randint(1, 3)):
                 (out / nm).write_bytes(b'{"stale": true}')
     elif kind == "foreign":
         probes["foreign_placed"] += 1
@@ -229,7 +232,7 @@ def execute(h: Dict[str, Any]) -> Dict[str, Any]:
     probes = {k: 0 for k in ["stale_owned_placed", "stale_realname_placed", "foreign_placed", "empty_pkg_dir_placed", "committed_copy_placed",
                              "cleanup_removed_stale", "stale_overwritten", "fault_fired", "fault_not_reached", "faulted_run_failed",
                              "faulted_run_left_partial", "other_plugin_tree", "merge_files", "different_model_before", "listing_permuted",
-                             "test_dir_used", "uuid_checked", "ascii_locale", "clock_shifted", "long_output_path"]}
+                             "test_dir_used", "uuid_checked", "ascii_locale", "clock_shifted", "long_output_path", "crlf_main_rs"]}
     faults_fired: Dict[str, int] = {}
     evlog: List[Any] = []
     try:
@@ -256,7 +259,8 @@ def execute(h: Dict[str, Any]) -> Dict[str, Any]:
 
         out = w.path("out")
         for i_ in range(h.get("out_depth", 0)):
-            out = out / ("nested-output-location-%02d-" % i_ + "x" * 14)
+            # long names, and characters that are special in glob patterns / shells but legal in paths
+            out = out / (["nested-output-location-%02d-" % i_ + "x" * 14, "build [v1]", "out*put?", "with space & co"][i_ % 4] if h.get("out_odd") else "nested-output-location-%02d-" % i_ + "x" * 14)
         if h.get("out_depth"):
             probes["long_output_path"] += 1
         td = w.path("td")
@@ -264,6 +268,10 @@ def execute(h: Dict[str, Any]) -> Dict[str, Any]:
             (td / "src").mkdir(parents=True)
             shutil.copy(pristine_main, td / "src" / "main.rs")
             probes["test_dir_used"] += 1
+            if h.get("crlf_main"):
+                # previous contents of the hand-maintained test file: CRLF line endings (autocrlf checkout)
+                (td / "src" / "main.rs").write_bytes(pristine_main.read_bytes().replace(b"\r\n", b"\n").replace(b"\n", b"\r\n"))
+                probes["crlf_main_rs"] += 1
 
         # ---- earlier states ------------------------------------------------------------------------
         for i, op in enumerate(h["ops"]):
@@ -430,6 +438,8 @@ def minimise(h: Dict[str, Any], sig: str) -> Tuple[Dict[str, Any], Dict[str, Any
         lambda c: c.update(finals=[{"hashseed": "0", "uuid_seed": 2, "ls_seed": None, "locale": None}] * len(c["finals"])),
         lambda c: c.update(test_dir=False),
         lambda c: c.update(out_depth=0),
+        lambda c: c.update(out_odd=False),
+        lambda c: c.update(crlf_main=False),
         lambda c: c["model"].pop("split", None),
         lambda c: c["model"].pop("compact", None),
         lambda c: c["model"].update(n_edits=0),
